@@ -13,6 +13,10 @@ Deny entries are installed through blacklist.add_file / add_command (and collect
 a sys.addaudithook observes open / subprocess.Popen / os.exec*; persistence is checked by a file-system
 diff of the scratch area around Hydration(...).dehydrate and serde.serialize.
 
+Round 10: stream validate-paths (run_vpath_stream: every path through validate(), model op `vchk`), malformed deny lists through
+collect.apply_blacklist (model op `blseq`) and through collect.collect() (fail-closed clause: abort => nothing ran; goes on =>
+every valid entry in force).
+
 Oracle: content or a provider for a path whose kernel-resolved location is outside the kernel-resolved
 root; a denied file opened / a denied command executed; a file created outside the output directory
 (known finding `dotdot-destination` only when the relative path or save_as has a '..' component).
@@ -1057,7 +1061,11 @@ def run(chk):
                 "(out-and-back, into siblings, up to '/' and down again), doubled slashes, directories, missing; deny lists drawn from the "
                 "requests themselves, their prefixes and space continuations; every factory kind under a recording HostContext and a "
                 "HostArchiveContext; save_as with and without trailing '/', with '..'. non-trivial = distinct (kind, context, root form, "
-                "request shape, outcome) with a provider returned or a rejection other than 'missing'")
+                "request shape, outcome) with a provider returned or a rejection other than 'missing'; round 10: every factory kind x filterable x "
+                "filters x denied (declaration place, no_redact/no_obfuscate/raw/split/keep_rc/env, PATH-relative commands, file shapes, item "
+                "sources, histories once / twice / deny-after-first-use) against the ordered checks of validate(); deny lists as a user may "
+                "write them (non-string items, None / number / bare string sections, unknown keys) through apply_blacklist and collect() "
+                "(manifest as dict / YAML text / YAML file)")
     chk.assumptions = [
         "os.path.realpath = the kernel's resolution, no concurrent change of the tree between validate and open (the tie feeds the model the kernel's answer and so checks realpath against it on every generated path)",
         "glob() results, os.path.exists/access/isdir, shlex.split + PATH look-up, the `ignore` regular expression and `%` formatting outside %s/%% are parameters of the model",
@@ -1095,6 +1103,8 @@ def shape(req):
 
 def _run(chk, rng, base, n_layouts, n_val, n_fac, n_ser, n_prim):
     from harness.common import dec
+    # first, so that its (self-contained, history-carrying) cases lead the replay list
+    run_vpath_stream(chk, rng, base, 8 if chk.tier == "quick" else 60)
     n_after = 8 if chk.tier == "quick" else 12
     n_sval = 4 if chk.tier == "quick" else 6
     v_cases, v_impl, v_lines = [], [], []
@@ -1146,6 +1156,8 @@ def _run(chk, rng, base, n_layouts, n_val, n_fac, n_ser, n_prim):
     # ---- corpus first (regression layout of the repaired prefix defect, the known finding's witness)
     for name, doc in load_corpus():
         c = doc["case"]
+        if c.get("op") in ("vpath", "blseq", "collect"):
+            continue                    # run at the head of their own streams
         lay = c["layout"]
         case = dict((k, v) for k, v in c.items() if k != "layout")
         if case["op"] == "validate":
@@ -1405,6 +1417,8 @@ def run_apply_blacklist(chk, rng):
         canon.append(tuple(sorted(set(dec(x) for x in f.split(","))) if f != "-" else [] for f in (a, b, c)))
     chk.compare("apply_blacklist", cases, impl, canon)
 
+    run_apply_blacklist_malformed(chk, rng, names)
+
     # a component disabled through the deny list is not evaluated
     del _VICTIM_RAN[:]
     if not _VICTIM_REG:
@@ -1421,6 +1435,100 @@ def run_apply_blacklist(chk, rng):
     finally:
         dr.set_enabled(v, True)
         clear_deny()
+
+
+def bl_state(strs):
+    """(file deny set, command deny set, disabled components among the names that were mentioned) + the components touched"""
+    pre = "insights.specs.default.DefaultSpecs."
+    disabled, touched = [], set()
+    for n in strs:
+        for full in (n, pre + n):
+            c = dr.get_component_by_name(full) if ("." in full and " " not in full and "/" not in full) else None
+            if c is not None and not dr.is_enabled(c):
+                disabled.append(full)
+                touched.add(c)
+    return (sorted(blacklist._FILE_FILTERS), sorted(blacklist._COMMAND_FILTERS), sorted(set(disabled))), touched
+
+
+def run_blseq_case(case):
+    """one collect.apply_blacklist on the deny list as written; returns (state or 'abort', model line, oracle failures, exception name)"""
+    from collections import defaultdict
+    import insights.specs.default  # noqa: F401
+    pre = "insights.specs.default.DefaultSpecs."
+    mal = case["malformed"]
+    cfg = dict((k, mal[k]) for k in ("files", "commands", "components") if mal[k] != ABSENT)
+    cfg.update(mal.get("extra") or {})
+    strs = uniq(case["files"] + case["commands"] + case["components"])
+    specs = [n for n in strs if n.isidentifier() and dr.get_component_by_name(pre + n)]
+    known = [n for n in strs if dr.get_component_by_name(n)]
+    saved = dict(dr.ENABLED)
+    exname, fails = None, []
+    try:
+        try:
+            collect.apply_blacklist(cfg)
+            got, _t = bl_state(strs)
+        except Exception as ex:
+            got, exname = "abort", type(ex).__name__
+    finally:
+        en = defaultdict(lambda: True)
+        en.update(saved)
+        dr.ENABLED = en
+        clear_deny()
+    line = "blseq\t%s\t%s\t%s\t%s\t%s" % (sect_enc(mal["files"]), sect_enc(mal["commands"]), sect_enc(mal["components"]),
+                                          enc_strs(specs), enc_strs(known))
+    # ORACLE (B): an application that returns has EVERY string entry in force
+    if got != "abort":
+        for f in case["files"]:
+            if f not in got[0] and (pre + f) not in got[2]:
+                fails.append("apply_blacklist(%r) returned, the file entry %r is not in force" % (cfg, f))
+        for c in case["commands"]:
+            if c not in got[1] and (pre + c) not in got[2]:
+                fails.append("apply_blacklist(%r) returned, the command entry %r is not in force" % (cfg, c))
+        for c in case["components"]:
+            if c in known and c not in got[2]:
+                fails.append("apply_blacklist(%r) returned, the component %r is still enabled" % (cfg, c))
+    return got, line, fails, exname
+
+
+def run_apply_blacklist_malformed(chk, rng, names):
+    """collect.apply_blacklist on deny lists as a user may write them: non-string items, None / number / bare string instead of a
+    list, absent and unknown keys.  Compared with the model's sequential application (abort or final state)."""
+    from harness.common import dec
+    pre = "insights.specs.default.DefaultSpecs."
+    cases, impl, lines = [], [], []
+    fixed = [doc["case"] for _n, doc in load_corpus() if doc["case"].get("op") == "blseq"]
+    for i in range(len(fixed) + (120 if chk.tier == "quick" else 2500)):
+        if i < len(fixed):
+            case = fixed[i]
+            chk.count("corpus")
+        else:
+            base = {"files": [rng.choice(names) for _ in range(rng.randint(0, 3))],
+                    "commands": [rng.choice(names) for _ in range(rng.randint(0, 3))],
+                    "components": [rng.choice(names) for _ in range(rng.randint(0, 3))], "in_manifest": False}
+            case = malform(rng, base)
+            case["op"] = "blseq"
+        got, line, fails, exname = run_blseq_case(case)
+        if exname:
+            chk.count("blseq:abort:" + exname)
+        for desc in fails:
+            chk.failure(desc, case)
+        cases.append(case)
+        impl.append(got)
+        lines.append(line)
+        chk.case(("blseq", json.dumps(case["malformed"], sort_keys=True)), nontrivial=True)
+        chk.count("blseq:mode:" + case["mode"])
+    model = run_driver("C06", lines)
+    canon = []
+    for m, i in zip(model, impl):
+        if m == "abort":
+            # the model aborts; an implementation that goes on instead is held to the oracle above (all valid entries in force)
+            canon.append("abort" if i == "abort" else i)
+            if i != "abort":
+                chk.count("blseq:implementation-went-on")
+            continue
+        parts = m.split(" ")
+        canon.append(tuple(sorted(set(dec(x) for x in f.split(","))) if f != "-" else [] for f in parts[1:4]) if parts[0] == "ok" and len(parts) == 4 else m)
+    chk.compare("apply_blacklist(malformed deny lists)", cases, impl, canon)
 
 
 _VICTIM_RAN = []
@@ -1484,7 +1592,64 @@ def gen_collect_case(rng, n):
         files += pick(lit_f, [1, 2, 3])
         cmds += pick(lit_c, [0, 1, 2])
     return {"op": "collect", "n": n, "files": sorted(set(files)), "commands": sorted(set(cmds)), "components": comps_,
-            "in_manifest": rng.random() < 0.3}
+            "in_manifest": rng.random() < 0.3, "manifest_form": rng.choice(["dict", "dict", "yaml", "file"])}
+
+
+BAD_ITEMS = [5, None, 3.5, True, 0, -1]
+ABSENT = "@absent"
+
+
+def uniq(xs):
+    return list(dict.fromkeys(xs))
+
+
+def malform(rng, case):
+    """the deny list AS THE USER WROTE IT, with a fault somewhere: returns the case with `malformed` (sections as written) and
+    files/commands/components reduced to the VALID string entries it still contains"""
+    mal = {"files": list(case["files"]), "commands": list(case["commands"]), "components": list(case["components"]), "extra": {}}
+    mode = rng.choice(["item", "item", "item", "item-front", "none-value", "str-value", "num-value", "unknown-keys", "comp-items", "absent"])
+    if mode in ("item", "item-front"):
+        sec = rng.choice(["files", "files", "commands"])
+        pos = 0 if mode == "item-front" else rng.randint(0, len(mal[sec]))
+        mal[sec].insert(pos, rng.choice(BAD_ITEMS))
+        if rng.random() < 0.3:
+            mal[sec].insert(rng.randint(0, len(mal[sec])), rng.choice(BAD_ITEMS))
+    elif mode == "none-value":
+        mal[rng.choice(["files", "commands", "components"])] = None
+    elif mode == "num-value":
+        mal[rng.choice(["files", "commands", "components"])] = rng.choice([7, 0, 2.5, True])
+    elif mode == "str-value":
+        sec = rng.choice(["files", "commands", "components"])
+        mal[sec] = rng.choice(["hosts", "/etc/hosts", "date", "ab"])
+    elif mode == "unknown-keys":
+        mal["extra"] = rng.choice([{"bogus": 5}, {"patterns": None, "keywords": "abc"}, {"file": ["/etc/hosts"], "Files": None},
+                                   {"patterns": {"regex": ["x"]}, "keywords": [1, 2]}])
+    elif mode == "comp-items":
+        for _ in range(rng.randint(1, 2)):
+            mal["components"].insert(rng.randint(0, len(mal["components"])), rng.choice(BAD_ITEMS))
+    elif mode == "absent":
+        mal[rng.choice(["files", "commands", "components"])] = ABSENT
+    out = dict(case)
+    out["malformed"] = mal
+    out["mode"] = mode
+    for sec in ("files", "commands", "components"):
+        v = mal[sec]
+        if isinstance(v, list):
+            out[sec] = uniq([x for x in v if isinstance(x, str)])
+        elif isinstance(v, str) and v != ABSENT:
+            out[sec] = uniq(list(v))
+        else:
+            out[sec] = []
+    return out
+
+
+def sect_enc(v):
+    """a section as written -> the driver's encoding"""
+    if isinstance(v, str):
+        return "~" if v == ABSENT else "s:" + enc(v)
+    if isinstance(v, list):
+        return "l:" + (";".join(enc(x) if isinstance(x, str) else "#" for x in v) if v else "_")
+    return "!"
 
 
 def _collect_specs(n):
@@ -1543,8 +1708,12 @@ def run_collect_case(base, case):
         configs.append({"name": "insights.specs.Specs." + k, "enabled": True})
         configs.append({"name": "insights.specs.default.DefaultSpecs." + k, "enabled": True})
     rm_conf = {"files": list(case["files"]), "commands": list(case["commands"]), "components": list(case["components"])}
+    if case.get("malformed"):
+        mal = case["malformed"]
+        rm_conf = dict((k, mal[k]) for k in ("files", "commands", "components") if mal[k] != ABSENT)
+        rm_conf.update(mal.get("extra") or {})
     bl = {"files": [], "commands": [], "patterns": [], "keywords": []}
-    if case.get("in_manifest"):
+    if case.get("in_manifest") and "files" in rm_conf:
         bl["files"] = rm_conf.pop("files")
     manifest = {"version": 0,
                 "client": {"context": {"class": "insights.core.context.HostContext", "args": {"root": root, "timeout": 10}},
@@ -1552,6 +1721,19 @@ def run_collect_case(base, case):
                            "persist": [{"name": reg, "enabled": True}, {"name": "insights.specs.Specs", "enabled": True}],
                            "run_strategy": {"name": "serial", "args": {"max_workers": None}}},
                 "plugins": {"default_component_enabled": False, "packages": ["insights.specs.default"], "configs": configs}}
+    # GLUE: the manifest as a dict, as YAML text, or as a YAML file (insights-collect -m <file>); load_manifest() takes all three
+    form = case.get("manifest_form", "dict")
+    if form in ("yaml", "file"):
+        import yaml
+        text = yaml.safe_dump(manifest)
+        if form == "file":
+            os.makedirs(work, exist_ok=True)
+            mf = os.path.join(work, "manifest.yaml")
+            with open(mf, "w") as fh:
+                fh.write(text)
+            manifest = mf
+        else:
+            manifest = text
     pre = "insights.specs.default.DefaultSpecs."
     names = sorted(set(case["files"] + case["commands"] + case["components"]))
     specs = [x for x in names if x.isidentifier() and dr.get_component_by_name(pre + x)]
@@ -1609,8 +1791,9 @@ def run_collect_case(base, case):
             marker = what[len("/bin/echo "):] if what.startswith("/bin/echo ") else None
             got[eid] = {"collected": in_meta, "touched": ran,
                         "leaked": bool(marker) and any(marker in c for f, c in persisted.items() if f.startswith("/data/"))}
+    data_files = sorted(f for f in persisted if f.startswith(("/data/", "/meta_data/")))
     shutil.rmtree(work, ignore_errors=True)
-    return {"got": got, "specs": specs, "known": known, "error": err, "opened": opened, "execd": execd}
+    return {"got": got, "specs": specs, "known": known, "error": err, "opened": opened, "execd": execd, "data_files": data_files}
 
 
 def collect_child():
@@ -1684,11 +1867,29 @@ def collect_oracle(case, obs):
     return fails
 
 
+def collect_abort_oracle(case, o):
+    """ORACLE (B), fail-closed: a collect() that raised on the deny list has run no datasource at all"""
+    if not o["error"]:
+        return []
+    ran = sorted(k for k, v in o["got"].items() if v["touched"] or v["collected"] or v["leaked"])
+    if ran or o["opened"] or o["execd"] or o.get("data_files"):
+        return ["collect() raised %s on the deny list %r, yet datasources had run: %r opened %r executed %r persisted %r"
+                % (o["error"], case.get("malformed"), ran, o["opened"], o["execd"], o.get("data_files"))]
+    return []
+
+
 def run_collect_stream(chk, rng, n_cases):
     from harness.common import dec
     cases = [{"op": "collect", "n": 0, "files": [], "commands": [], "components": [], "in_manifest": False}]
     cases += [gen_collect_case(rng, i + 1) for i in range(n_cases)]
+    n_mal = max(16, n_cases)
+    cases += [malform(rng, gen_collect_case(rng, n_cases + 1 + i)) for i in range(n_mal)]
+    cases += [doc["case"] for _n, doc in load_corpus() if doc["case"].get("op") == "collect"]
     obs = run_collect_cases(cases)
+    if not isinstance(obs, list) or len(obs) != len(cases):
+        chk.tie_broken("collect-child", "the child interpreter returned %r observations for %d cases" % (
+            len(obs) if isinstance(obs, list) else type(obs).__name__, len(cases)), cases[0])
+        return
     baseline = dict((k, v["collected"]) for k, v in obs[0]["got"].items())
     chk.extra["collect_baseline"] = sorted(k for k, v in baseline.items() if v)
     want_base = set(k for k in baseline if not k.startswith("F:own_first:c"))
@@ -1717,18 +1918,41 @@ def run_collect_stream(chk, rng, n_cases):
     allow = [dict() for _ in cases]
     for (ci, eid), m in zip(idx, al):
         allow[ci][eid] = m == "1"
+    # the deny list as written, applied sequentially by the model: does the application abort?
+    mal_idx = [ci for ci, c in enumerate(cases) if c.get("malformed")]
+    strict = run_driver("C06", ["blseq\t%s\t%s\t%s\t%s\t%s" % (
+        sect_enc(cases[ci]["malformed"]["files"]), sect_enc(cases[ci]["malformed"]["commands"]),
+        sect_enc(cases[ci]["malformed"]["components"]), enc_strs(obs[ci]["specs"]), enc_strs(obs[ci]["known"])) for ci in mal_idx])
+    aborts = dict((ci, m == "abort") for ci, m in zip(mal_idx, strict))
     impl, model = [], []
     for ci, (case, o) in enumerate(zip(cases, obs)):
         exp = collect_expect(case, o, bls[ci], allow[ci], baseline)
-        impl.append(sorted(k for k, v in o["got"].items() if v["collected"]))
-        model.append(sorted(k for k, v in exp.items() if v))
+        got_list = sorted(k for k, v in o["got"].items() if v["collected"])
+        want_list = sorted(k for k, v in exp.items() if v)
+        if case.get("malformed"):
+            chk.count("collect:malformed:%s:%s" % (case["mode"], "aborted" if o["error"] else "ran"))
+            # ORACLE (B), fail-closed: an aborted collect() has run no datasource at all ...
+            for desc in collect_abort_oracle(case, o):
+                chk.failure(desc, case)
+            # ... and one that goes on has EVERY valid entry in force (collect_oracle below, on the valid entries)
+            # correspondence: abort is compared as such; where the implementation goes on, what it collected is held to
+            # the model with all valid entries applied
+            if o["error"] and aborts.get(ci):
+                got_list, want_list = "abort", "abort"
+            elif o["error"]:
+                got_list = "abort"
+        elif o["error"]:
+            got_list = "raised"
+        impl.append(got_list)
+        model.append(want_list)
         for desc in collect_oracle(case, o):
             chk.failure(desc, case)
         if o["error"]:
             chk.count("collect:error")
         chk.case(("collect", tuple(case["files"]), tuple(case["commands"]), tuple(case["components"])),
                  nontrivial=impl[-1] != impl[0])
-        chk.count("collect:denied-elements:%d" % min(5, len(impl[0]) - len(impl[-1])))
+        if isinstance(impl[-1], list) and isinstance(impl[0], list):
+            chk.count("collect:denied-elements:%d" % min(5, len(impl[0]) - len(impl[-1])))
     chk.compare("collect()(collected elements)", cases, impl, model)
     chk.sample({"collect": {k: cases[1][k] for k in ("files", "commands", "components")}, "collected": impl[1]})
 
@@ -1960,6 +2184,335 @@ def run_hydrate_stream(chk, rng, base, n_cases):
 
 # --------------------------------------------------------------------------- replay
 
+# --------------------------------------------------------------------------- every path through validate() (round 10)
+
+V_KINDS = ["simple_file", "glob_file", "first_file", "foreach_collect", "simple_command", "command_with_args", "foreach_execute",
+           "container_execute", "container_collect"]
+V_FILES = ["/etc/vp/va.conf", "/etc/vp/vb.conf", "/etc/vp/vc.conf"]
+_V_N = [0]
+
+
+def v_candidates(kind, case=None):
+    """what the datasource of this kind is asked to open / execute: [(identity, deny key)]"""
+    echo = "echo" if (case or {}).get("cmdform") == "rel" else "/bin/echo"
+    if (case or {}).get("src") == "scalar" and kind in ("foreach_collect", "foreach_execute", "container_execute", "container_collect"):
+        return v_candidates(kind, dict(case, src="list"))[:1]
+    if kind in ("simple_file",):
+        return [("o:" + V_FILES[0], V_FILES[0])]
+    if kind in ("glob_file", "first_file", "foreach_collect"):
+        return [("o:" + f, f) for f in V_FILES]
+    if kind in ("simple_command", "command_with_args"):
+        return [("x:%s va" % echo, "%s va" % echo)]
+    if kind == "foreach_execute":
+        return [("x:%s %s" % (echo, a), "%s %s" % (echo, a)) for a in ("va", "vb", "vc")]
+    if kind == "container_execute":
+        return [("x:" + c, c) for c in ("/usr/bin/env exec cid_%s ls -l /x" % a for a in "abc")]
+    if kind == "container_collect":
+        return [("x:" + c, c) for c in ("/usr/bin/env exec cid_%s cat /etc/vp/v%s.conf" % (a, a) for a in "abc")]
+    raise ValueError(kind)
+
+
+def gen_vpath_case(rng, kind, filterable, addf, denied):
+    cmdform = rng.choice(["abs", "abs", "rel"])
+    src = rng.choice(["list", "list", "provider", "set", "scalar"])
+    cands = [c[0][2:] for c in v_candidates(kind, {"cmdform": cmdform, "src": src})]
+    pool_hit = list(cands)
+    if kind not in FILE_KINDS:
+        for c in cands:
+            parts = c.split(" ")
+            pool_hit += [" ".join(parts[:i]) for i in range(1, len(parts))]
+    pool_miss = [c[:-1] for c in cands] + [c + "x" for c in cands] + ["/etc/vp", "/etc/vp/", "/bin/ech", "/usr/bin/env exec cid", " " + cands[0],
+                                                                      cands[0] + " ", "/etc/vp/va.conf extra"]
+    deny = set()
+    if denied:
+        deny.update(rng.choice(pool_hit) for _ in range(rng.choice([1, 1, 2, 3])))
+        if rng.random() < 0.2:
+            deny.update(cands)
+    deny.update(rng.choice(pool_miss) for _ in range(rng.choice([0, 1, 2])))
+    decl = rng.choice(["point", "point", "direct"])
+    case = {"op": "vpath", "kind": kind, "filterable": filterable, "addf": bool(addf and filterable), "deny": sorted(deny),
+            "decl": decl, "ctx": "host" if rng.random() < 0.9 else "archive",
+            "enabled": not (filterable and rng.random() < 0.12),
+            "no_redact": rng.random() < 0.3, "no_obf": rng.choice([None, None, ["ipv4"], ["hostname", "ipv4", "ipv6", "mac"]]),
+            "raw": kind in FILE_KINDS and not filterable and rng.random() < 0.2,
+            "first_order": rng.sample(range(3), 3), "npat": rng.choice([1, 1, 2]),
+            "hist": rng.choice(["once", "once", "late-deny", "twice"]), "src": src,
+            "cmdform": cmdform, "fshape": [rng.choice(["reg", "reg", "link", "empty", "hard"]) for _ in range(3)],
+            "keep_rc": rng.random() < 0.25, "env": rng.random() < 0.25}
+    case["split"] = not (kind in ("simple_command", "command_with_args", "foreach_execute") and not case["addf"]
+                         and not filterable and rng.random() < 0.2)
+    return case
+
+
+def v_build(case, ctxcls):
+    k = case["kind"]
+    _V_N[0] += 1
+    n = _V_N[0]
+    kw = {}
+    if case["decl"] == "direct":
+        kw = {"filterable": case["filterable"], "no_redact": case["no_redact"]}
+        if case["no_obf"] is not None:
+            kw["no_obfuscate"] = list(case["no_obf"])
+    fk = sf.RawFileProvider if case.get("raw") else sf.TextFileProvider
+    items_ds, items_val = None, None
+    echo = "echo" if case.get("cmdform") == "rel" else "/bin/echo"
+    ckw = dict(kw)
+    if case.get("keep_rc"):
+        ckw["keep_rc"] = True
+    if case.get("env"):
+        ckw["override_env"] = {"LC_ALL": "C"}
+        ckw["inherit_env"] = ["HOME"]
+    if case.get("split") is False:
+        ckw["split"] = False
+
+    def items(broker):
+        return None
+    items.__name__ = "vitems%d" % n
+    if k == "simple_file":
+        ds = sf.simple_file(V_FILES[0], context=ctxcls, kind=fk, **kw)
+    elif k == "glob_file":
+        pats = ["/etc/vp/v*.conf"] if case["npat"] == 1 else ["/etc/vp/va*", "/etc/vp/v[bc].conf"]
+        ds = sf.glob_file(pats, context=ctxcls, kind=fk, **kw)
+    elif k == "first_file":
+        ds = sf.first_file(["/etc/vp/none"] + [V_FILES[i] for i in case["first_order"]], context=ctxcls, kind=fk, **kw)
+    elif k == "foreach_collect":
+        items_ds = datasource(ctxcls)(items)
+        items_val = ["va", "vb", "vc"]
+        ds = sf.foreach_collect(items_ds, "/etc/vp/%s.conf", context=ctxcls, kind=fk, **kw)
+    elif k == "simple_command":
+        ds = sf.simple_command(echo + " va", context=ctxcls, **ckw)
+    elif k == "command_with_args":
+        items_ds = datasource(ctxcls)(items)
+        items_val = "va"
+        ds = sf.command_with_args(echo + " %s", items_ds, context=ctxcls, **ckw)
+    elif k == "foreach_execute":
+        items_ds = datasource(ctxcls)(items)
+        items_val = ["va", "vb", "vc"]
+        ds = sf.foreach_execute(items_ds, echo + " %s", context=ctxcls, **ckw)
+    elif k == "container_execute":
+        items_ds = datasource(ctxcls)(items)
+        items_val = [("img", "env", "cid_" + a) for a in "abc"]
+        ds = sf.container_execute(items_ds, "ls -l /x", context=ctxcls, **kw)
+    elif k == "container_collect":
+        items_ds = datasource(ctxcls)(items)
+        items_val = [("img", "env", "cid_" + a, "/etc/vp/v%s.conf" % a) for a in "abc"]
+        ds = sf.container_collect(items_ds, context=ctxcls, **kw)
+    else:
+        raise ValueError(k)
+    target = ds
+    if case["decl"] == "point":
+        rp = {"filterable": case["filterable"], "no_redact": case["no_redact"],
+              "multi_output": k not in ("simple_file", "first_file", "simple_command", "command_with_args"),
+              "raw": bool(case.get("raw")) or case.get("split") is False}
+        if case["no_obf"] is not None:
+            rp["no_obfuscate"] = list(case["no_obf"])
+        base_cls = sf.SpecSetMeta("C06VSpecs%d" % n, (sf.SpecSet,), {"x": sf.RegistryPoint(**rp)})
+        sf.SpecSetMeta("C06VImpl%d" % n, (base_cls,), {"x": ds})
+        target = base_cls.x
+    if case["addf"]:
+        filters.add_filter(target, ["TOKEN", "never_there_c06"])
+    return ds, items_ds, items_val
+
+
+def run_vpath(base, case):
+    """returns (impl_answer, model_lines, failures): impl_answer = 'nofilter' or the sorted identities of the providers returned"""
+    fails = []
+    k = case["kind"]
+    _V_N[0] += 1
+    work = os.path.join(base, "vp%d" % _V_N[0])      # a root of its own: nothing an earlier case left behind can be hit by name
+    root = os.path.join(work, "root")
+    out = os.path.join(work, "out")
+    shutil.rmtree(work, ignore_errors=True)
+    os.makedirs(os.path.join(root, "etc", "vp"))
+    toks = {}
+    shapes = case.get("fshape") or ["reg"] * 3
+    for i, f in enumerate(V_FILES):
+        toks[f] = "VTK%dQ" % i
+        shp = shapes[i]
+        real = root + f if shp in ("reg", "empty") else root + "/etc/vp/store%d.data" % i
+        with open(real, "w") as fh:
+            fh.write("" if shp == "empty" else "first\nTOKEN %s\nlast line\n" % toks[f])
+        if shp == "link":
+            os.symlink("store%d.data" % i, root + f)
+        elif shp == "hard":
+            os.link(real, root + f)
+    host = case["ctx"] == "host"
+    ctxcls = HostContext if host else HostArchiveContext
+    ctx = RecHost(root=root) if host else HostArchiveContext(root=root)
+    cands = v_candidates(k, case)
+    file_like = k in FILE_KINDS
+    saved_enabled = filters.ENABLED
+    provs, contents, events, ans_head = [], [], [], "ok"
+    persisted = {}
+    try:
+        filters.ENABLED = bool(case["enabled"])
+        filters._CACHE.clear()
+        hist = case.get("hist", "once")
+        if hist != "late-deny":
+            for d in case["deny"]:
+                (blacklist.add_file if file_like else blacklist.add_command)(d)
+        ds, items_ds, items_val = v_build(case, ctxcls)
+        broker = dr.Broker()
+        broker[ctxcls] = ctx
+        if items_ds is not None:
+            src = case.get("src", "list")
+            if src == "provider" and isinstance(items_val, list):
+                items_val = sf.DatasourceProvider(content=list(items_val), relative_path="vitems")
+            elif src == "provider" and k == "command_with_args":
+                items_val = sf.DatasourceProvider(content=[items_val], relative_path="vitems")   # content is a list: refused
+            elif src == "set" and isinstance(items_val, list):
+                items_val = set(items_val)
+            elif src == "scalar" and isinstance(items_val, list):
+                items_val = items_val[0]
+            broker[items_ds] = items_val
+        if hist in ("late-deny", "twice"):
+            # HISTORY: the same datasource object was evaluated (and read) before; with "late-deny" the deny entries are
+            # registered only after that first use
+            try:
+                warm = ds(broker)
+                for p in (warm if isinstance(warm, list) else [warm]):
+                    try:
+                        p.content
+                    except Exception:
+                        pass
+            except Exception:
+                pass
+            if hist == "late-deny":
+                for d in case["deny"]:
+                    (blacklist.add_file if file_like else blacklist.add_command)(d)
+        _AUD["events"] = []
+        audit(True)
+        try:
+            try:
+                res = ds(broker)
+                provs = res if isinstance(res, list) else [res]
+            except Exception as ex:
+                ans_head = classify(ex)
+                res = None
+            for p in provs:
+                try:
+                    contents.append(p.content)
+                except Exception:
+                    contents.append(None)
+            keep = [i for i, c in enumerate(contents) if c]
+            if keep:
+                broker[ds] = [provs[i] for i in keep] if isinstance(res, list) else provs[0]
+                try:
+                    serde.Hydration(out).dehydrate(ds, broker)
+                except Exception as ex:
+                    fails.append(("Hydration.dehydrate raised %r for %s" % (ex, k), case, None))
+        finally:
+            audit(False)
+        events = list(_AUD["events"])
+        for f in walk_files(out) if os.path.isdir(out) else []:
+            try:
+                with open(f, "rb") as fh:
+                    persisted[f[len(out):]] = fh.read().decode("utf-8", "replace")
+            except OSError:
+                persisted[f[len(out):]] = ""
+    finally:
+        filters.ENABLED = saved_enabled
+        filters._CACHE.clear()
+        clear_deny()
+        shutil.rmtree(work, ignore_errors=True)
+    # ---- shape of what came back
+    idents = []
+    for p in provs:
+        if isinstance(p, sf.FileProvider):
+            pth = p.path
+            idents.append("o:/" + pth[len(root):].lstrip("/") if isinstance(pth, str) and pth.startswith(root) else "o?:%r" % (pth,))
+        elif isinstance(p, sf.CommandOutputProvider):
+            idents.append("x:%s" % (p.cmd,))
+        else:
+            idents.append("?:%s" % type(p).__name__)
+    ans = "nofilter" if ans_head == "nofilter" else "|".join(sorted(idents))
+    # ---- ORACLE (B): denied => never returned / opened / executed / persisted, whatever filterable / filters / flags are
+    if host:
+        opened, execd = set(), set()
+        for ev in events:
+            if ev[0] == "open" and isinstance(ev[1], str) and ev[1].startswith(root + "/"):
+                opened.add("/" + ev[1][len(root):].lstrip("/"))
+            elif ev[0] in ("rec", "popen"):
+                for argv in (ev[1] if ev[0] == "rec" else [ev[1]]):
+                    if argv and argv[0] == "grep" and argv[-1].startswith(root + "/"):
+                        opened.add("/" + argv[-1][len(root):].lstrip("/"))
+                    execd.add(" ".join(argv))
+        for ident, key in cands:
+            if not oracle_denied(key, case["deny"]):
+                continue
+            how = []
+            if ident in idents:
+                how.append("a provider was returned for it")
+            if file_like and key in opened:
+                how.append("it was opened")
+            if not file_like and key in execd:
+                how.append("it was executed")
+            if file_like and any(toks[key] in c for c in persisted.values()):
+                how.append("its content was persisted")
+            if not file_like and any(isinstance(v, str) and ('"cmd": "%s"' % key) in v for v in persisted.values()):
+                how.append("it was recorded as collected in meta_data")
+            if how:
+                fails.append(("%s (filterable=%s, filters %s, declared on the %s): %r matches the deny list %r, yet %s"
+                              % (k, case["filterable"], "registered" if case["addf"] else "none", case["decl"], key, case["deny"],
+                                 " and ".join(how)), case, None))
+    # ---- model: the ordered checks of validate() per candidate
+    # `_filterable` looks at the REGISTRY POINTS of the datasource: a datasource declared filterable outside a SpecSet has none
+    # (so it is the combination "not filterable, filters registered"); INSIGHTS_FILTERS_ENABLED=false switches both off
+    eff_filterable = bool(case["filterable"] and case["enabled"] and case["decl"] == "point")
+    eff_filters = bool(case["addf"] and case["enabled"])
+    lines = []
+    for ident, key in cands:
+        lines.append("\t".join(["vchk", "file" if file_like else "cmd", "1", "1" if host else "0", "1" if eff_filterable else "0",
+                                "1" if eff_filters else "0", enc(key), enc_strs(case["deny"]), "1", "1"]))
+    return ans, lines, fails
+
+
+def vpath_expect(case, model):
+    cands = v_candidates(case["kind"], case)
+    if case["kind"] == "command_with_args" and case.get("src") == "provider":
+        return ""           # the argument source is neither str nor tuple: ContentException before any provider is built
+    if any(m == "nofilter" for m in model):
+        return "nofilter"
+    ok = [c[0] for c, m in zip(cands, model) if m == "ok"]
+    if case["kind"] == "first_file":
+        order = ["o:" + V_FILES[i] for i in case["first_order"]]
+        ok = [x for x in order if x in ok][:1]
+    return "|".join(sorted(ok))
+
+
+def run_vpath_stream(chk, rng, base, reps):
+    cases, impl, lines, spans = [], [], [], []
+
+    def do_case(case):
+        ans, ls, fails = run_vpath(base, case)
+        for desc, c, fid in fails:
+            chk.failure(desc, c, finding=fid)
+        cases.append(case)
+        impl.append(ans)
+        spans.append((len(lines), len(lines) + len(ls)))
+        lines.extend(ls)
+        chk.case(("vpath", case["kind"], case["filterable"], case["addf"], tuple(case["deny"]), case["decl"], case["ctx"],
+                  case["enabled"]), nontrivial=bool(case["deny"]))
+        chk.count("vpath:%s:%s" % ("filterable" if case["filterable"] else "plain", "filters" if case["addf"] else "nofilters"))
+        chk.count("vpath:answer:" + ("nofilter" if ans == "nofilter" else ("none" if not ans else "some")))
+        chk.count("vpath:history:" + case.get("hist", "once"))
+
+    for _name, doc in load_corpus():
+        if doc["case"].get("op") == "vpath":
+            do_case(doc["case"])
+            chk.count("corpus")
+    for rep in range(reps):
+        for kind in V_KINDS:
+            for filterable in (False, True):
+                for addf in ((False, True) if filterable else (False,)):
+                    for denied in (True, False):
+                        do_case(gen_vpath_case(rng, kind, filterable, addf, denied))
+    model = run_driver("C06", lines)
+    exp = [vpath_expect(c, model[a:b]) for c, (a, b) in zip(cases, spans)]
+    chk.compare("validate-paths(kind x filterable x filters x denied)", cases, impl, exp)
+    chk.sample({"vpath": cases[-3], "providers": impl[-3]})
+
+
 def replay(data):
     c = data["case"]
     print("replaying", json.dumps({k: v for k, v in c.items() if k != "layout"}, ensure_ascii=False))
@@ -2000,7 +2553,17 @@ def replay(data):
             print("collected without a deny list:", sorted(k for k, v in obs[0]["got"].items() if v["collected"]))
             print("collected with it:            ", sorted(k for k, v in obs[1]["got"].items() if v["collected"]))
             print("opened:", obs[1]["opened"], "executed:", obs[1]["execd"])
-            fails = [(d, c, None) for d in collect_oracle(c, obs[1])]
+            print("collect() raised:", obs[1]["error"])
+            fails = [(d, c, None) for d in collect_oracle(c, obs[1]) + collect_abort_oracle(c, obs[1])]
+        elif op == "blseq":
+            got, line, bf, exname = run_blseq_case(c)
+            print("apply_blacklist ->", got, exname or "")
+            print("model:            ", run_driver("C06", [line])[0])
+            fails = [(d, c, None) for d in bf]
+        elif op == "vpath":
+            ans, lines, fails = run_vpath(base, c)
+            print("implementation:", ans)
+            print("model:         ", vpath_expect(c, run_driver("C06", lines)))
         elif op == "mangle":
             m = mangle_command(c["cmd"])
             print("mangle_command ->", repr(m))
